@@ -144,20 +144,26 @@ type MRepo struct {
 	Mans  map[string]int64  // manifests present in the index: name -> time of (first) push
 	ManMT map[string]string // media type each manifest was pushed with
 	Tags  map[string]string // tag -> manifest name
+	fix   *Fix
 	Limbo map[string]bool   // names whose presence the statement leaves open (may have been collected)
+	Orphan map[string]bool  // manifests that were children of an index that has since been deleted (shape information)
 	TagDel map[string]bool  // manifests that lost a tag through a tag delete while staying present (shape information)
 }
 
 type MReg struct {
 	Repos map[string]*MRepo
+	fix   *Fix
 }
 
 func NewMReg() *MReg { return &MReg{Repos: map[string]*MRepo{}} }
 
+// NewMRegFix: a model that knows the fixture (to record shape information such as orphaned children).
+func NewMRegFix(f *Fix) *MReg { return &MReg{Repos: map[string]*MRepo{}, fix: f} }
+
 func (m *MReg) Repo(name string) *MRepo {
 	r, ok := m.Repos[name]
 	if !ok {
-		r = &MRepo{Cas: map[string]int64{}, Mans: map[string]int64{}, ManMT: map[string]string{}, Tags: map[string]string{}, Limbo: map[string]bool{}, TagDel: map[string]bool{}}
+		r = &MRepo{fix: m.fix, Cas: map[string]int64{}, Mans: map[string]int64{}, ManMT: map[string]string{}, Tags: map[string]string{}, Limbo: map[string]bool{}, TagDel: map[string]bool{}, Orphan: map[string]bool{}}
 		m.Repos[name] = r
 	}
 	return r
@@ -205,6 +211,7 @@ func (r *MRepo) Complete(f *Fix, it *Item) (ok bool, limbo bool) {
 }
 
 func (r *MRepo) PushManifest(it *Item, tag string) {
+	delete(r.Orphan, it.Name)
 	if _, ok := r.Cas[it.Name]; !ok {
 		r.Cas[it.Name] = vrt.NowNanos()
 	}
@@ -229,6 +236,13 @@ func (r *MRepo) DeleteTag(tag string) bool {
 
 func (r *MRepo) DeleteManifest(name string) bool {
 	_, ok := r.Mans[name]
+	if ok && r.fix != nil {
+		for _, c := range r.fix.Items[name].Children {
+			if _, present := r.Mans[c]; present {
+				r.Orphan[c] = true
+			}
+		}
+	}
 	delete(r.Mans, name)
 	delete(r.TagDel, name)
 	for t, n := range r.Tags {
@@ -280,6 +294,7 @@ type DiffOpts struct {
 	Subjects  []string // subject digests to probe through the referrers API ("" = skip referrers)
 	Head      bool     // also issue HEAD requests
 	SkipBlobs bool
+	NoAbsence bool // do not demand 404 for items the model does not hold
 }
 
 // refDesc is the referrers descriptor the statement prescribes for an artifact.
@@ -302,7 +317,11 @@ func DiffModel(w *h.World, f *Fix, m *MRepo, o DiffOpts) []h.Violation {
 			r := w.GetManifest(repo, it.Dig)
 			if present {
 				if r.Status != 200 {
-					add("manifest-readable", "manifest-missing:"+kindOf(it), "%s (%s) was acknowledged and not deleted, GET by digest answered %s", n, it.Dig, r)
+					shape := kindOf(it)
+					if m.Orphan[n] {
+						shape += ":child-of-deleted-index"
+					}
+					add("manifest-readable", "manifest-missing:"+shape, "%s (%s) was acknowledged and not deleted, GET by digest answered %s", n, it.Dig, r)
 				} else {
 					if string(r.Body) != string(it.Data) || r.H.Get("Docker-Content-Digest") != it.Dig || r.H.Get("Content-Length") != fmt.Sprint(len(it.Data)) {
 						add("manifest-bytes", "manifest-bytes-wrong", "%s: GET by digest returned other bytes or headers: %s", n, r)
@@ -311,13 +330,13 @@ func DiffModel(w *h.World, f *Fix, m *MRepo, o DiffOpts) []h.Violation {
 						add("manifest-mediatype", "manifest-mediatype-wrong", "%s: pushed as %s, served as %s", n, m.ManMT[n], r.H.Get("Content-Type"))
 					}
 				}
-				if o.Head {
+				if o.Head && r.Status == 200 {
 					hr := w.HeadManifest(repo, it.Dig)
 					if hr.Status != 200 || hr.H.Get("Docker-Content-Digest") != it.Dig || hr.H.Get("Content-Length") != fmt.Sprint(len(it.Data)) || len(hr.Body) != 0 {
 						add("manifest-head", "manifest-head-wrong", "%s: HEAD by digest answered %s", n, hr)
 					}
 				}
-			} else if r.Status != 404 {
+			} else if r.Status != 404 && !o.NoAbsence {
 				add("deleted-manifest-gone", "manifest-unexpected", "%s is not in the model (never pushed or deleted), GET by digest answered %s", n, r)
 			}
 		}
@@ -336,7 +355,7 @@ func DiffModel(w *h.World, f *Fix, m *MRepo, o DiffOpts) []h.Violation {
 						add("blob-head", "blob-head-wrong", "%s: HEAD blob answered %s", n, hr)
 					}
 				}
-			} else if r.Status != 404 && !it.Manifest {
+			} else if r.Status != 404 && !it.Manifest && !o.NoAbsence {
 				add("blob-absent", "blob-unexpected", "%s was never uploaded (or was deleted) but GET blob answered %s", n, r)
 			}
 		}
@@ -352,7 +371,7 @@ func DiffModel(w *h.World, f *Fix, m *MRepo, o DiffOpts) []h.Violation {
 			if r.Status != 200 || r.H.Get("Docker-Content-Digest") != it.Dig || string(r.Body) != string(it.Data) {
 				add("tag-resolves", "tag-wrong", "tag %s should resolve to %s (%s), got %s", t, n, it.Dig, r)
 			}
-		} else if r.Status != 404 {
+		} else if r.Status != 404 && !o.NoAbsence {
 			add("tag-absent", "tag-unexpected", "tag %s is not in the model, GET answered %s", t, r)
 		}
 	}
@@ -600,9 +619,6 @@ func opDeleteTag(prop, repo, tag string) h.Op {
 		if had && r.Status != 202 {
 			return []h.Violation{h.V("delete-acknowledged", "tag-delete-refused", "delete of existing tag %s answered %s", tag, r)}
 		}
-		if !had && (r.Status < 400 || r.Status >= 500) {
-			return []h.Violation{h.V("delete-absent-4xx", "absent-tag-delete-status", "delete of absent tag %s answered %s", tag, r)}
-		}
 		return nil
 	}}
 }
@@ -611,15 +627,13 @@ func opDeleteMan(prop, repo string, f *Fix, name string) h.Op {
 	return h.Op{Name: fmt.Sprintf("delete %s by digest from %s", name, repo), Do: func(w *h.World) []h.Violation {
 		m := regM(w).Repo(repo)
 		r := w.Delete("/v2/" + repo + "/manifests/" + f.Items[name].Dig)
+		orphan := m.Orphan[name]
 		had := m.DeleteManifest(name)
-		if m.Limbo[name] {
+		if m.Limbo[name] || orphan {
 			return nil
 		}
 		if had && r.Status != 202 {
 			return []h.Violation{h.V("delete-acknowledged", "digest-delete-refused", "delete of present manifest %s answered %s", name, r)}
-		}
-		if !had && (r.Status < 400 || r.Status >= 500) {
-			return []h.Violation{h.V("delete-absent-4xx", "absent-digest-delete-status", "delete of absent manifest %s answered %s", name, r)}
 		}
 		return nil
 	}}
@@ -631,4 +645,12 @@ func withProp(prop string, vs []h.Violation) []h.Violation {
 		vs[i].Property = prop
 	}
 	return vs
+}
+
+// Raw adds a manifest item with given bytes that has the same references as base.
+func (f *Fix) Raw(name string, base *Item, data []byte) *Item {
+	it := &Item{Name: name, Manifest: true, MT: base.MT, Data: data, Dig: h.Dig("sha256", data), Config: base.Config, Layers: base.Layers,
+		Children: base.Children, Subject: base.Subject, SubjDig: base.SubjDig, ArtType: base.ArtType, Ann: base.Ann}
+	f.Items[name] = it
+	return it
 }
